@@ -24,6 +24,7 @@ TYPES = [
     "Literal['a', 'b']",
     "Literal['a', 'b', 'c']",
     "Literal['x-y', 'p q']",
+    "Literal[1, 2]",
     "List[str]",
     "List[int]",
     "Union[int, str]",
@@ -51,7 +52,9 @@ def defaults_for(t):
         d += [("float", 0.5), ("negfloat", -0.5), ("intfloat", 2.0)]
     if b == "str":
         d += [("str", "a")]
-    if t and t.startswith("Literal["):
+    if t == "Literal[1, 2]":
+        d += [("int", 2)]
+    elif t and t.startswith("Literal["):
         d += [("str", "x-y" if "x-y" in t else "a")]
     if b == "str":
         d += [("strspace", "a b"), ("emptystr", ""), ("strdot", "a.b"), ("strquote", 'say "hi"')]
